@@ -32,6 +32,13 @@ def cases(tier, seed):
                             for r in range(reps):
                                 yield dict(kind=algo, mattype=mt, n=n, spectrum=spec, k=k, vreal=vreal,
                                            seed=int(rng.integers(1 << 31)))
+        # maps that return (a view of) their argument or a buffer of their own instead of a fresh array
+        for form in h.MAPFORMS:
+            for n in range(1, 9):
+                for vreal in (False, True):
+                    for r in range(reps):
+                        yield dict(kind=algo, mattype='special', mapform=form, n=n, spectrum='separated', k=0, vreal=vreal,
+                                   seed=int(rng.integers(1 << 31)))
 
 
 def run_case(c):
@@ -43,11 +50,14 @@ def run_case(c):
             fails.append(dict(clause=clause, detail=detail, signature=f'{c["kind"]}_iteration:{clause}'))
     n = c['n']
     radius = float(10.0 ** rng.uniform(-3, -1)) if rng.integers(4) == 0 else None      # also small-norm maps
-    P = h.build(rng, n, c['mattype'], c['spectrum'], c['k'], radius=radius, vreal=c['vreal'])
+    if c.get('mapform'):
+        P = h.special(rng, n, c['mapform'], c['vreal'])
+    else:
+        P = h.build(rng, n, c['mattype'], c['spectrum'], c['k'], radius=radius, vreal=c['vreal'])
     A, v, kdim = P['A'], P['v'], P['kdim']
     nA = float(np.linalg.norm(A, 2))
     sc = max(1.0, nA)
-    Afunc = lambda x: A @ x
+    Afunc = P.get('Afunc') or (lambda x: A @ x)
     v0 = v.copy()
     for m in range(1, n + 1):
         tag = f'n={n} m={m} kdim={kdim}'
